@@ -62,8 +62,11 @@ func boolInput(id run.CaseID) (subj, clp Paths) {
 		subj, clp, _ = gen.Lattice(r)
 	case "rectilinear":
 		subj, clp, _ = gen.Rectilinear(r)
-	case "nested":
-		R := gen.PickOf(r, 60.0, 500.0, 20000.0, 3.0e6, 2.0e8)
+	case "nested", "nested-small":
+		R := gen.PickOf(r, 500.0, 20000.0, 3.0e6, 2.0e8)
+		if id.Family == "nested-small" { // closed pool: +-60..150, where unit differences and near-coincidences are frequent
+			R = gen.PickOf(r, 60.0, 150.0)
+		}
 		subj, _ = gen.Nested(r, 1+r.Intn(3), 6, R, r.Chance(0.7), r.Chance(0.3))
 		if r.Chance(0.6) {
 			clp, _ = gen.Nested(r, 1+r.Intn(2), 4, R*r.FloatRange(0.5, 1.2), r.Chance(0.7), false)
@@ -207,3 +210,113 @@ func addCounts(ctx *run.Ctx, rec *clip.VerifRecorder) {
 
 // BoolInput exposes boolInput to the developer tool.
 func BoolInput(id run.CaseID) (Paths, Paths) { return boolInput(id) }
+
+// ---------------------------------------------------------------------------
+// Attribution to the self-intersection repair (the hook C01 asks for).
+//
+// doSplitOp deliberately discards one loop of a self-intersecting output ring
+// (event "split_discard": the triangle ip / splitOp / splitOp.next), and
+// checkJoinLeft/Right merge two edges' rings at a join point (events "joinL/R":
+// the triangle between the rings' last output points and the join point is no
+// longer traced). When that choice is wrong the region error is exactly that
+// triangle. A failure is given
+// the class "repair-discarded-loop" only if re-executing the operation with
+// event recording shows such an event AND the witness lies in the discarded
+// triangle (inflated by the rounding band) / the area discrepancy is covered by
+// the discarded triangles. Everything else stays unattributed.
+
+type discardTri struct {
+	a, b, c [2]float64
+	area    float64
+}
+
+func discardedTriangles(rec *clip.VerifRecorder) []discardTri {
+	var out []discardTri
+	if rec == nil {
+		return nil
+	}
+	for _, ev := range rec.Events {
+		if ev.Site == "joinL" || ev.Site == "joinR" {
+			// an edge join closes/merges the two rings at the join point: what lies between the two rings' last
+			// output points and the join point is no longer traced (harmless when those points coincide with it)
+			t := discardTri{a: [2]float64{float64(ev.Last1.X), float64(ev.Last1.Y)}, b: [2]float64{float64(ev.Last2.X), float64(ev.Last2.Y)}, c: [2]float64{float64(ev.Pt.X), float64(ev.Pt.Y)}}
+			t.area = math.Abs((t.b[0]-t.a[0])*(t.c[1]-t.a[1])-(t.b[1]-t.a[1])*(t.c[0]-t.a[0])) / 2
+			// the event must have the documented shape: the join point within 0.5 of the neighbour edge (or exactly on
+			// both edges when the current-X form of the test was used) and (e.top, pt, neighbour.top) collinear -
+			// exactly, or according to the as-built collinearity model (KF trisign). A join made under any other
+			// condition (e.g. a loosened distance test) is NOT attributable.
+			okShape := false
+			if ev.CheckCurrX {
+				okShape = perpDist(ev.Pt, ev.E2Bot, ev.E2Top) <= 0.5*(1+1e-9)
+			} else {
+				okShape = perpDist(ev.Pt, ev.E1Bot, ev.E1Top) <= 1.5 && perpDist(ev.Pt, ev.E2Bot, ev.E2Top) <= 1.5
+			}
+			if okShape {
+				okShape = exactCol(ev.E1Top, ev.Pt, ev.E2Top) || asBuiltCol(ev.E1Top, ev.Pt, ev.E2Top)
+			}
+			if t.area > 4 && okShape {
+				out = append(out, t)
+			}
+			continue
+		}
+		if ev.Site != "split_discard" {
+			continue
+		}
+		// documented discard rule: the split-off triangle is dropped when its area is <= 1 or when it is not
+		// larger than the rest and of opposite sign; an event outside that rule is NOT attributable
+		if a1, a2 := ev.Area1, ev.Area2; !(math.Abs(a2) <= 1 || (math.Abs(a2) <= math.Abs(a1) && (a2 > 0) != (a1 > 0))) {
+			continue
+		}
+		prev, sp, nx, nn := ev.E1Bot, ev.Pt, ev.E1Top, ev.E2Top
+		ix, iy, ok := oracle.SegSegIntersectF(prev, sp, nx, nn)
+		if !ok {
+			ix, iy = float64(prev.X), float64(prev.Y)
+		}
+		t := discardTri{a: [2]float64{ix, iy}, b: [2]float64{float64(sp.X), float64(sp.Y)}, c: [2]float64{float64(nx.X), float64(nx.Y)}}
+		t.area = math.Abs((t.b[0]-t.a[0])*(t.c[1]-t.a[1])-(t.b[1]-t.a[1])*(t.c[0]-t.a[0])) / 2
+		out = append(out, t)
+	}
+	return out
+}
+
+func segDistFF(px, py, ax, ay, bx, by float64) float64 {
+	dx, dy := bx-ax, by-ay
+	l2 := dx*dx + dy*dy
+	if l2 == 0 {
+		return math.Hypot(px-ax, py-ay)
+	}
+	t := ((px-ax)*dx + (py-ay)*dy) / l2
+	t = math.Max(0, math.Min(1, t))
+	return math.Hypot(px-(ax+t*dx), py-(ay+t*dy))
+}
+
+func (t discardTri) containsInflated(p Pt, infl float64) bool {
+	px, py := float64(p.X), float64(p.Y)
+	s := func(a, b [2]float64) float64 { return (b[0]-a[0])*(py-a[1]) - (b[1]-a[1])*(px-a[0]) }
+	d1, d2, d3 := s(t.a, t.b), s(t.b, t.c), s(t.c, t.a)
+	if (d1 >= 0 && d2 >= 0 && d3 >= 0) || (d1 <= 0 && d2 <= 0 && d3 <= 0) {
+		return true
+	}
+	return math.Min(segDistFF(px, py, t.a[0], t.a[1], t.b[0], t.b[1]), math.Min(segDistFF(px, py, t.b[0], t.b[1], t.c[0], t.c[1]), segDistFF(px, py, t.c[0], t.c[1], t.a[0], t.a[1]))) <= infl
+}
+
+// discardEvents re-executes one boolean operation with event recording.
+func discardEvents(subj, clp Paths, ct clip.ClipType, fr clip.FillRule) []discardTri {
+	var tris []discardTri
+	func() {
+		defer func() { recover() }()
+		_, rec, _ := execBool(subj, clp, ct, fr, true)
+		tris = discardedTriangles(rec)
+	}()
+	return tris
+}
+
+// discardClassPoint returns the class if the witness point lies in a discarded triangle of that execution.
+func discardClassPoint(subj, clp Paths, ct clip.ClipType, fr clip.FillRule, p Pt) string {
+	for _, t := range discardEvents(subj, clp, ct, fr) {
+		if t.containsInflated(p, 2.5) {
+			return "repair-discarded-loop"
+		}
+	}
+	return ""
+}
